@@ -42,6 +42,8 @@ pub struct Arena {
     pub alloc_log: Vec<(u64, u64)>,
     /// blocks freed in the current epoch (for the write-after-free sweep)
     recent_freed: Vec<u64>,
+    /// addresses of the live blocks
+    live_set: std::collections::BTreeSet<u64>,
 }
 
 static mut ARENA: Option<Arena> = None;
@@ -72,6 +74,7 @@ pub fn arena() -> &'static mut Arena {
                 freed_log: Vec::new(),
                 alloc_log: Vec::new(),
                 recent_freed: Vec::new(),
+                live_set: std::collections::BTreeSet::new(),
             });
         }
         ARENA.as_mut().unwrap()
@@ -105,6 +108,7 @@ impl Arena {
             Block { size: size as u64, live: true, serial: self.serial, owner: self.owner, freed_epoch: 0 },
         );
         self.alloc_log.push((start as u64, size as u64));
+        self.live_set.insert(start as u64);
         start as u64
     }
 
@@ -144,6 +148,7 @@ impl Arena {
         let blk = self.blocks.get_mut(&addr).unwrap();
         blk.live = false;
         blk.freed_epoch = e;
+        self.live_set.remove(&addr);
         self.freed_log.push((addr, b.size));
         self.recent_freed.push(addr);
     }
@@ -197,18 +202,19 @@ impl Arena {
     }
 
     pub fn live(&self) -> Vec<(u64, u64)> {
-        self.blocks.iter().filter(|(_, b)| b.live).map(|(a, b)| (*a, b.size)).collect()
+        self.live_set.iter().map(|a| (*a, self.blocks[a].size)).collect()
     }
 
     pub fn live_count(&self) -> usize {
-        self.blocks.values().filter(|b| b.live).count()
+        self.live_set.len()
     }
 
     /// End of a case: canaries of live blocks and of blocks freed in this epoch, poison of blocks
     /// freed in this epoch (write after free). Then start the next epoch.
     pub fn sweep(&mut self) {
         let mut faults = Vec::new();
-        for (a, b) in self.blocks.iter().filter(|(_, b)| b.live) {
+        for a in self.live_set.iter() {
+            let b = &self.blocks[a];
             if !self.canaries_ok(*a, b.size) {
                 faults.push(format!("buffer overrun: red zone of live block {a:#x}+{} overwritten", b.size));
             }
@@ -233,6 +239,7 @@ impl Arena {
     pub fn reset(&mut self) {
         assert_eq!(self.live_count(), 0);
         self.blocks.clear();
+        self.live_set.clear();
         self.recent_freed.clear();
         self.freed_log.clear();
         self.alloc_log.clear();
